@@ -1436,6 +1436,39 @@ pub fn c08(tier: Tier, caps: &Caps) -> Vec<FamilyReport> {
             many.push(SPacket::SubAck { pid: 1, props: vec![], codes: (0..n).map(|i| [0u8, 1, 2, 0x80, 0x87][i % 5]).collect() }.encode());
             many.push(SPacket::UnsubAck { pid: 1, props: vec![], codes: (0..n).map(|i| [0u8, 0x11, 0x80][i % 3]).collect() }.encode());
         }
+        // many well-formed properties and then one that is not (string cut short, undefined identifier, invalid
+        // UTF-8, a second Payload Format Indicator's value missing): raw bytes behind an encoded prefix
+        for n in [0usize, 1, 15, 16, 17, 31, 32, 33, 63, 64, 65, 100] {
+            for (ti, tail) in [&[0x26u8, 0x00, 0x01, b'k', 0x00, 0x05, b'v'][..], &[0x7E, 0x00][..], &[0x03, 0x00, 0x02, 0xC3, 0x28][..], &[0x26, 0x00, 0x01][..], &[0x0B, 0x80, 0x80, 0x80, 0x80, 0x01][..]].iter().enumerate() {
+                for qos in [0u8, 1, 2] {
+                    if qos != 1 && ti > 1 {
+                        continue;
+                    }
+                    let mut pb = Vec::new();
+                    mr::put_props(&mut pb, &(0..n).map(|i| if i % 3 == 2 { pr(0x0B, PVal::Var(i as u32 + 1)) } else { pr(0x26, PVal::Pair(b"k".to_vec(), format!("{}", i).into_bytes())) }).collect::<Vec<_>>());
+                    // `pb` = length prefix + properties; re-encode the prefix for the longer block
+                    let plen_len = (1..=4usize).find(|k| pb.len() >= *k && mr::varint_len((pb.len() - k) as u32) == *k).unwrap();
+                    let body_props = {
+                        let inner = &pb[plen_len..];
+                        let mut v = Vec::new();
+                        mr::put_varint(&mut v, (inner.len() + tail.len()) as u32);
+                        v.extend_from_slice(inner);
+                        v.extend_from_slice(tail);
+                        v
+                    };
+                    let mut body = vec![0x00, 0x01, b'm'];
+                    if qos > 0 {
+                        body.extend_from_slice(&[0x00, 0x07]);
+                    }
+                    body.extend_from_slice(&body_props);
+                    body.extend_from_slice(b"12");
+                    let mut pkt = vec![0x30 | (qos << 1)];
+                    mr::put_varint(&mut pkt, body.len() as u32);
+                    pkt.extend_from_slice(&body);
+                    many.push(pkt);
+                }
+            }
+        }
         many.push(SPacket::Ack { kind: AckKind::PubAck, pid: 1, reason: 0x10, props: (0..40).map(|i| pr(0x26, PVal::Pair(b"k".to_vec(), format!("{}", i).into_bytes()))).collect(), form: 2 }.encode());
         many.push(SPacket::Disconnect { reason: 0x8B, props: (0..40).map(|i| pr(0x26, PVal::Pair(b"k".to_vec(), format!("{}", i).into_bytes()))).collect(), form: 2 }.encode());
     }
@@ -1478,7 +1511,7 @@ pub fn c08(tier: Tier, caps: &Caps) -> Vec<FamilyReport> {
         "C08",
         many.len() as u64 * 2,
         caps,
-        json!({"cases": "PUBLISH with 2..120 user properties (repeated keys), with 2..120 subscription identifiers, and mixed with once-only properties; SUBACK / UNSUBACK with 1..1000 reason codes; PUBACK and DISCONNECT with 40 user properties; each whole and byte-by-byte", "rx": MANY_RX}),
+        json!({"cases": "PUBLISH with 2..120 user properties (repeated keys), with 2..120 subscription identifiers, and mixed with once-only properties; SUBACK / UNSUBACK with 1..1000 reason codes; PUBACK and DISCONNECT with 40 user properties; PUBLISH with 0..100 well-formed properties followed by a malformed one (value cut short, undefined identifier, invalid UTF-8, over-long variable byte integer); each whole and byte-by-byte", "rx": MANY_RX}),
         &|i| c08_after_connack_rx(&many[(i / 2) as usize], i % 2 == 1, MANY_RX),
         &|i| json!({"phase": "after-connack", "bytes": mr::hex(&many[(i / 2) as usize]), "fragmented": i % 2 == 1, "rx": MANY_RX}),
     ));
